@@ -7,7 +7,9 @@
 (* (each prefix is checked on the way); -simulate prints random ones.          *)
 EXTENDS Cluster, Json
 
-CONSTANTS MaxLen, WithBad, WithDup, GenDepth, Sim, Mixed
+CONSTANTS MaxLen, WithBad, WithDup, GenDepth, Sim, Mixed, Burst,
+          Ordered    \* FALSE: events travel as frames, each handled on a goroutine of its own - a batch then
+                     \* holds at most one status per address (their order of arrival is not defined)
 
 VARIABLE hist
 gvars == <<truth, g, d, nref, hist>>
@@ -23,14 +25,29 @@ Lists == {s \in UNION {[1 .. n -> RowSet] : n \in 0 .. MaxLen} : GoodList(s)}
 CanonIds == <<"i1", "i2", "i3", "i4">>
 CanonAddrs == <<"a1", "a2", "a3", "a4">>
 
+RECURSIVE SeqOf(_)
+SeqOf(S) == IF S = {} THEN <<>> ELSE LET x == CHOOSE y \in S : TRUE IN <<x>> \o SeqOf(S \ {x})
+SeqOfAddrs == SeqOf(AllAddrs)
+
 Ev(k, a) == [kind |-> k, addr |-> a]
 StatusBatches ==
   {<<Ev(k, a)>> : k \in {"UP", "DOWN"}, a \in AllAddrs}
-  \cup {<<Ev("UP", a), Ev("DOWN", a)>> : a \in AllAddrs} \cup {<<Ev("DOWN", a), Ev("UP", a)>> : a \in AllAddrs}
+  \cup (IF Ordered THEN {<<Ev("UP", a), Ev("DOWN", a)>> : a \in AllAddrs} \cup {<<Ev("DOWN", a), Ev("UP", a)>> : a \in AllAddrs}
+        ELSE {<<Ev("UP", p[1]), Ev("DOWN", p[2])>> : p \in {x \in AllAddrs \X AllAddrs : x[1] # x[2]}})
 TopoBatches ==
   {<<Ev(k, a)>> : k \in {"NEW_NODE", "REMOVED_NODE"}, a \in AllAddrs}
   \cup {<<Ev("NEW_NODE", a), Ev(k, a)>> : k \in {"UP", "DOWN"}, a \in AllAddrs}
   \cup {<<Ev("DOWN", a), Ev("REMOVED_NODE", a)>> : a \in AllAddrs}
+
+\* a burst: Burst events in a row, all kinds, all addresses (0: no bursts)
+AddrSeq == SeqOfAddrs
+\* every address gets one kind of status event throughout the burst (the frames of a burst are
+\* handled concurrently), topology events in between
+BurstAt(o) ==
+  [k \in 1 .. Burst |->
+     LET ai == ((k * 3 + o) % Len(AddrSeq)) + 1
+     IN IF k % 3 = 0 THEN Ev(IF k % 2 = 0 THEN "NEW_NODE" ELSE "REMOVED_NODE", AddrSeq[ai])
+        ELSE Ev(IF (ai + o) % 2 = 0 THEN "UP" ELSE "DOWN", AddrSeq[ai])]
 
 \* concrete kinds of invalid rows, rotated with the position in the history
 BadKinds == <<"notokens", "norack", "nodc", "norpc", "nohostid">>
@@ -51,11 +68,18 @@ Init == InitWith(<<>>) /\ hist = <<>>
 
 \* In simulation every kind of step gets the same weight (one random instance per kind).
 \* (the index set mentions the state so that TLC does not cache the choice as a constant)
-RECURSIVE SeqOf(_)
-SeqOf(S) == IF S = {} THEN <<>> ELSE LET x == CHOOSE y \in S : TRUE IN <<x>> \o SeqOf(S \ {x})
 Pick(S) == IF Sim THEN {RandomElement({x \in S : Len(hist) >= 0})} ELSE S
-ListSeq == SeqOf(Lists)
-PickList == IF Sim THEN {ListSeq[RandomElement(1 .. (Len(ListSeq) + 0 * Len(hist)))]} ELSE Lists
+\* sampled lists: 6 of 10 without invalid rows and repeated ids, 2 with an invalid row, 2 with a repeated id
+IsClean(s) == (\A k \in 1 .. Len(s) : s[k].inv = "ok") /\ (\A j, k \in 1 .. Len(s) : j < k => s[j].id # s[k].id)
+SeqClean == SeqOf({s \in Lists : IsClean(s)})
+SeqBad == SeqOf({s \in Lists : \E k \in 1 .. Len(s) : s[k].inv # "ok"})
+SeqDup == SeqOf({s \in Lists : \E j, k \in 1 .. Len(s) : j < k /\ s[j].id = s[k].id})
+FromSeq(q) == q[RandomElement(1 .. (Len(q) + 0 * Len(hist)))]
+PickList ==
+  IF ~Sim THEN Lists
+  ELSE LET c == RandomElement(1 .. (10 + 0 * Len(hist)))
+       IN {IF c <= 6 \/ (c <= 8 /\ SeqBad = <<>>) \/ (c > 8 /\ SeqDup = <<>>) THEN FromSeq(SeqClean)
+           ELSE IF c <= 8 THEN FromSeq(SeqBad) ELSE FromSeq(SeqDup)}
 
 \* ids and addresses are interchangeable: the first step of an enumerated history uses
 \* canonical lists (i1 at a1, i2 at a2, ...) and the first peer address only
@@ -74,6 +98,8 @@ MixedSteps ==
   \/ \E b \in Pick({x \in TopoBatches : x[1].addr \in A0 /\ (Sim \/ x # <<Ev("NEW_NODE", CanonAddrs[1])>>)}) :
         \E l \in (IF Sim THEN PickList ELSE {truth}) : Events(l, b) /\ Rec("events", l, "none", b, "")
   \/ Sim /\ \E b \in Pick({<<Ev("UP", a)>> : a \in Addrs}) : \E l \in PickList : Events(l, b) /\ Rec("events", l, "none", b, "")
+  \/ Burst > 0 /\ \E o \in Pick(0 .. 4) : \E l \in (IF Sim THEN PickList ELSE {truth}) :
+        Events(l, BurstAt(o)) /\ Rec("burst", l, "none", BurstAt(o), "")
   \/ \E a \in Pick(A0) : NodeFail(truth, a) /\ Rec("nodefail", truth, "none", <<>>, a)
   \/ \E a \in Pick(Addrs) : NodeRecover(truth, a) /\ Rec("noderecover", truth, "none", <<>>, a)
   \/ \E l \in (IF Sim THEN PickList ELSE {truth, Other}) : NodeRecover(l, C0addr) /\ Rec("noderecover", l, "none", <<>>, C0addr)
